@@ -62,7 +62,7 @@ def kind_of_line(line):
         return 'atx'
     if '|' in body:
         return 'table'
-    if re.match(r'^([-_*])(?:[ ]*\1){2,}[ ]*$', body) or re.match(r'^ {0,3}([-_*])(?:[ ]*\1){2,}[ ]*$', line):
+    if re.match(r'^([-_*])(?:[ \t]*\1){2,}[ \t]*$', body) or re.match(r'^ {0,3}([-_*])(?:[ \t]*\1){2,}[ \t]*$', line):
         return 'hr'
     return None
 
